@@ -704,6 +704,63 @@ func c06Readers(c *Ctx) error {
 	c.P("Definition redeploy_refreshes_open_batches : bool := %s.", c06Bool(refresh))
 	c.Info("redeploy_refreshes_open_batches", refresh)
 
+	// (e3) the confirmation's signature field is verified as a whole: EthAddressFromSignature has a length guard and hands the
+	// very slice it was given to go-ethereum's SigToPub (which refuses anything but 65 bytes) - no copy, no sub-slice
+	sf, err := c.Parse("x/skyway/types/ethereum_signer.go")
+	if err != nil {
+		return err
+	}
+	ea := FindFunc(sf, "", "EthAddressFromSignature")
+	if ea == nil || len(ea.Type.Params.List) != 2 || len(ea.Type.Params.List[1].Names) != 1 {
+		return fmt.Errorf("EthAddressFromSignature(hash, signature) not found")
+	}
+	sigParam := ea.Type.Params.List[1].Names[0].Name
+	guard := ""
+	for _, st := range ea.Body.List {
+		if is, ok := st.(*ast.IfStmt); ok {
+			cond := strings.Join(strings.Fields(c.Src(is.Cond)), " ")
+			if strings.HasPrefix(cond, "len("+sigParam+")") && len(is.Body.List) == 1 {
+				if _, ok := is.Body.List[0].(*ast.ReturnStmt); ok {
+					guard = cond
+				}
+			}
+		}
+	}
+	whole := guard != ""
+	stp := Calls(ea.Body, "SigToPub")
+	if len(stp) != 1 || len(stp[0].Args) != 2 {
+		whole = false
+	} else if id, ok := stp[0].Args[1].(*ast.Ident); !ok || id.Name != sigParam {
+		whole = false
+	}
+	exactGuard := strings.Contains(guard, "!= 65") || strings.Contains(guard, "!= crypto.SignatureLength")
+	ast.Inspect(ea.Body, func(x ast.Node) bool {
+		switch e := x.(type) {
+		case *ast.SliceExpr:
+			if id, ok := e.X.(*ast.Ident); ok && id.Name == sigParam {
+				whole = false
+			}
+		case *ast.AssignStmt: // signature = ... / sig := signature...
+			for _, l := range e.Lhs {
+				if id, ok := l.(*ast.Ident); ok && id.Name == sigParam {
+					whole = false
+				}
+			}
+		}
+		return true
+	})
+	if len(Calls(ea.Body, "copy")) > 0 && !exactGuard {
+		whole = false
+	}
+	ve := FindFunc(sf, "", "ValidateEthereumSignature")
+	if ve == nil || len(Calls(ve.Body, "EthAddressFromSignature")) != 1 {
+		whole = false
+	}
+	c.P("(* x/skyway/types/ethereum_signer.go: EthAddressFromSignature's length guard; the signature field reaches go-ethereum's")
+	c.P("   SigToPub (65 bytes or an error) as the very slice that was handed in, or the guard demands exactly 65 bytes *)")
+	c.P("Definition signature_length_guard : string := %s.", CoqStr(guard))
+	c.P("Definition signature_checked_whole : bool := %s.", c06Bool(whole || (exactGuard && guard != "")))
+
 	// (f) valset GetSigningKey: which fields of an account every key-returning exit has compared with the arguments
 	vf, err := c.Parse("x/valset/keeper/keeper.go")
 	if err != nil {
